@@ -19,6 +19,8 @@ ASSUMPTIONS = [
     'ghost layer thickness is n_layers*radius_scale*max(h) over every row present when update() starts '
     '(stale ghosts included), 1.0*n_layers when that product is below 1e-6',
     'no NaN among coordinates and smoothing lengths',
+    'the model update has no memory (it takes the current rows); state the compiled manager caches between updates '
+    '(its NNPSParticleArrayWrappers) is covered by the differential histories, not by the theorems',
 ]
 READY = True
 DESIGN_REF = '6/C07'
@@ -26,11 +28,14 @@ TECHNIQUE = 'Lean 4 proof over a hand-written model + exact (Rat / bit-exact Flo
 LEVEL_TEXT = ("Lean 4 theorems over every ordered field, box, flag combination, layer thickness, copied-property "
               "subset, particle list and move-then-update history (wrap_inside, wrap_particle, "
               "periodic_ghosts_eq_image_set + periodic_images_explicit, mirror_ghosts_eq_image_set + mirror_images, "
-              "update_structure, update_reals, no_accumulation, ghost-count bound, exact-copy lemmas) about a "
+              "update_structure, update_reals, no_accumulation, reals_of_runE + no_accumulation_changing_population for "
+              "histories in which real particles are also appended and removed between updates, ghost-count bound, "
+              "exact-copy lemmas) about a "
               "hand-written model that transcribes CPUDomainManager.update; the model is tied to the compiled code on "
               "every run by exact differential execution (Rat on dyadic inputs incl. <= ties, Float bit-exact "
-              "otherwise), and the property's own predicate is evaluated with exact rationals on the implementation "
-              "to produce replays.")
+              "otherwise) over histories on ONE manager object (move, rescale h, remove_particles, add_particles -- "
+              "also into arrays that were empty when the manager was built -- then update), and the property's own "
+              "predicate is evaluated with exact rationals on the implementation to produce replays.")
 LEVEL_NOTE = ("Trusted: Lean kernel, axioms propext/Classical.choice/Quot.sound; the hand-written model (checked by the "
               "correspondence, ~900 cases / ~2300 updates quick); exact-field arithmetic in place of IEEE doubles "
               "(exact on the dyadic grid, bit-exact Float tie off it); cyarray remove/align modelled as an "
